@@ -128,7 +128,7 @@ def encodeDct (dct : Dct) (v : IVal) : EncM Unit := do
           | none => do odxraise .odx; pure Text.Codec.latin1)
         match Text.encode codec cps with
         | some r => pure r
-        | none => raise .foreign                               -- UnicodeEncodeError (not caught here)
+        | none => do odxraise .encode; raise .unmodelled       -- lenient: errors="replace"
       | _ => do odxraise .encode; raise .unmodelled)
     let n := raw.length
     let dataLen ←
@@ -136,6 +136,14 @@ def encodeDct (dct : Dct) (v : IVal) : EncM Unit := do
       else match maxLen with
         | some mx => if n > mx then do odxraise .encode; pure mx else pure n
         | none => pure n
+    -- a value that contains the (aligned) termination sequence behind MIN-LENGTH cannot be encoded
+    let tseq : Bytes := match term with
+      | .zero => if bt = .unicode2 then [0, 0] else [0]
+      | .hexff => if bt = .unicode2 then [255, 255] else [255]
+      | .eop => []
+    if tseq.length > 0 ∧ (List.range ((raw.length + tseq.length - 1) / tseq.length)).any
+        (fun q => decide (q * tseq.length ≥ minLen) && ((raw.drop (q * tseq.length)).take tseq.length == tseq)) then
+      odxraise .encode
     emplaceAtomic (.bytes raw) (8 * dataLen) .bytefield none true none
     let s ← getS
     odxassert (term ≠ .eop || s.isEndOfPdu)
@@ -154,9 +162,9 @@ def encodeDct (dct : Dct) (v : IVal) : EncM Unit := do
       | .bytefield, .bytes b => pure b.length
       | .bytefield, .str cps => pure cps.length                  -- len(str)
       | .unicode2, .str cps =>
-        (match Text.encode .utf16le cps with | some r => pure r.length | none => raise .foreign)
+        (match Text.encode .utf16le cps with | some r => pure r.length | none => do odxraise .encode; raise .unmodelled)
       | .ascii, .str cps | .utf8, .str cps =>
-        (match Text.encode .utf8 cps with | some r => pure r.length | none => raise .foreign)
+        (match Text.encode .utf8 cps with | some r => pure r.length | none => do odxraise .encode; raise .unmodelled)
       | _, .bytes _ => do odxraise .odx; raise .unmodelled        -- string type, bytes value
       | _, .str _ => pure 0                                      -- numeric base type: `byte_length = -1` …
       | _, _ => do odxraise .encode; raise .unmodelled)          -- lenient: `return`
@@ -276,6 +284,7 @@ def encodeDop : (fuel : Nat) → Dop → PVal → EncM Unit
       modifyS fun s => { s with isEndOfPdu := false }
       encodeStaticItems item itemSize s.isEndOfPdu fuel xs
       modifyS fun s' => { s' with isEndOfPdu := s.isEndOfPdu }
+    | .atom (.str _) | .atom (.bytes _) => raise .unmodelled    -- str/bytes are Sequences too
     | _ => do odxraise .odx; raise .unmodelled
   | fuel+1, .dynLenField offset cbp cbit countDop item, pv => do
     let s ← getS
@@ -292,6 +301,7 @@ def encodeDop : (fuel : Nat) → Dop → PVal → EncM Unit
       modifyS fun s' => { s' with isEndOfPdu := s.isEndOfPdu }
       if xs.length = 0 then emplaceBytes [] none
       modifyS fun s' => { s' with origin := origOrigin }
+    | .atom (.str _) | .atom (.bytes _) => raise .unmodelled    -- str/bytes are Sequences too
     | _ => do odxraise .encode; raise .unmodelled
   | fuel+1, .endMarkerField termVal termDop item, pv => do
     let s ← getS
@@ -305,6 +315,7 @@ def encodeDop : (fuel : Nat) → Dop → PVal → EncM Unit
         let s2 ← getS
         encodeDop fuel termDop (.atom termVal)
         modifyS fun s' => { s' with cursorByte := s2.cursorByte }
+    | .atom (.str _) | .atom (.bytes _) => raise .unmodelled    -- str/bytes are Sequences too
     | _ => do odxraise .encode; pure ()                          -- lenient: `return`
   | fuel+1, .eopField _ _ item, pv => do
     let s ← getS
@@ -315,6 +326,7 @@ def encodeDop : (fuel : Nat) → Dop → PVal → EncM Unit
       modifyS fun s => { s with isEndOfPdu := false }
       encodeItems item s.isEndOfPdu fuel xs
       modifyS fun s' => { s' with isEndOfPdu := s.isEndOfPdu }
+    | .atom (.str _) | .atom (.bytes _) => raise .unmodelled    -- str/bytes are Sequences too
     | _ => do odxraise .encode; pure ()
   | fuel+1, .unsupported, _ => raise .unmodelled
 
@@ -354,7 +366,11 @@ def encodeParam : (fuel : Nat) → Param → Option PVal → EncM Unit
     (match kind with
     | .codedConst dct value => do
       match pv with
-      | some (.atom v) => if v ≠ value then odxraise .encode
+      | some (.atom v) =>
+        if v ≠ value then
+          (match v, value with
+           | .int _, .int _ | .bytes _, .bytes _ | .str _, .str _ => odxraise .encode
+           | _, _ => raise .unmodelled)                        -- Python `!=` across types (16.0 vs 16, bytes vs bytearray)
       | some _ => odxraise .encode
       | none => pure ()
       encodeDct dct value
@@ -390,6 +406,12 @@ def encodeParam : (fuel : Nat) → Param → Option PVal → EncM Unit
     | .unsupported => raise .unmodelled)
     modifyS fun s => { s with cursorBit := 0 }
 
+/-- `physical_value.get(name)`: a value `None` is the same as "not supplied" -/
+def lookupV (name : String) (values : List (String × PVal)) : Option PVal :=
+  match lookup name values with
+  | some .none => none
+  | x => x
+
 /-- first loop of `composite_codec_encode_into_pdu` -/
 def encodeParams (origEop : Bool) (values : List (String × PVal)) : (fuel : Nat) → List Param → EncM Unit
   | 0, _ => raise .unmodelled
@@ -397,13 +419,13 @@ def encodeParams (origEop : Bool) (values : List (String × PVal)) : (fuel : Nat
   | fuel+1, p :: rest => do
     if rest.isEmpty then modifyS fun s => { s with isEndOfPdu := origEop }
     (match p with
-    | .mk name bytePos bitPos (.lengthKey dop) => encodeKeyPlaceholder name bytePos bitPos dop (lookup name values)
+    | .mk name bytePos bitPos (.lengthKey dop) => encodeKeyPlaceholder name bytePos bitPos dop (lookupV name values)
     | .mk name _ _ kind => do
       let required : Bool := match kind with
         | .value _ none => true
         | _ => false
       if required && (lookup name values).isNone then odxraise .encode
-      encodeParam fuel p (lookup name values))
+      encodeParam fuel p (lookupV name values))
     encodeParams origEop values fuel rest
 
 /-- second loop: the length keys get their final values -/
